@@ -18,12 +18,24 @@ USE_CACHE = os.environ.get("PYVC_NO_CACHE", "0") != "1"
 _quick = z3.Solver()
 
 
+_quick_memo = {}
+
+
 def quick_unsat(assertions, timeout_ms=300) -> bool:
     """Cheap infeasibility test used only for path pruning (an 'unknown' keeps the path)."""
+    key = tuple(a.get_id() for a in assertions)
+    if key in _quick_memo:
+        return _quick_memo[key]
     s = z3.Solver()
     s.set("timeout", timeout_ms)
     s.add(*assertions)
-    return s.check() == z3.unsat
+    r = s.check() == z3.unsat
+    _quick_memo[key] = r
+    _quick_keep.append(assertions)      # keep the terms alive so that ids stay unique
+    return r
+
+
+_quick_keep = []
 
 
 def _cache_get(key):
@@ -68,6 +80,25 @@ def run_cvc5(smt2: str, timeout_s=CVC5_TIMEOUT_S):
         os.unlink(name)
 
 
+import re as _re
+_FRESH = _re.compile(r"(\|?)([A-Za-z_][A-Za-z_0-9.\[\]'\-]*?)((?:![0-9]+)+)(\|?)")
+
+
+def normalise_fresh(smt2: str) -> str:
+    """Alpha-rename the fresh constants (name!N, produced by z3.FreshConst in creation order) by order of first
+    occurrence, so that the cache key does not depend on how many fresh names were drawn before this query."""
+    table = {}
+    # declarations are listed in an order that depends on the names: key on the assertions only
+    smt2 = "\n".join(l for l in smt2.splitlines() if not l.startswith("(declare-fun "))
+
+    def sub(m):
+        full = m.group(2) + m.group(3)
+        if full not in table:
+            table[full] = f"{m.group(2)}!#{len(table)}"
+        return m.group(1) + table[full] + m.group(4)
+    return _FRESH.sub(sub, smt2)
+
+
 def check(hyps, goal, want_model=True, both=False, timeout_ms=None, use_cvc5=True):
     """Decide hyps |= goal.  Returns dict(result= 'proved'|'refuted'|'unknown', backend, time_s, model, cached)."""
     s = z3.Solver()
@@ -76,7 +107,7 @@ def check(hyps, goal, want_model=True, both=False, timeout_ms=None, use_cvc5=Tru
         s.add(h)
     s.add(z3.Not(goal))
     smt2 = s.to_smt2()
-    key = hashlib.sha256((z3.get_version_string() + smt2).encode()).hexdigest()
+    key = hashlib.sha256((z3.get_version_string() + normalise_fresh(smt2)).encode()).hexdigest()
     c = _cache_get(key)
     if c is not None and not both:
         c["cached"] = True
